@@ -117,6 +117,29 @@ Theorem C12_raising_generic_visit_crashes : forall methods k,
 Proof. exact raising_generic_visit_crashes. Qed.
 Print Assumptions C12_raising_generic_visit_crashes.
 
+(* 6b. every if/elif chain of the package that compares one subject with the members of one
+       enum and ends in `assert False` / raise (ParameterKind in bind_arguments, can_assign,
+       to_argument; ConstraintType in apply_to_value) handles EVERY member of the enum as
+       regenerated from the source, except the one named nested chain; typevar.solve handles
+       every Bound class of value.py *)
+Theorem C12_enum_chains_total_partial : forall ch, In ch enum_chains -> chain_guard ch = false -> chain_total ch = true.
+Proof. exact enum_chains_total_partial. Qed.
+Print Assumptions C12_enum_chains_total_partial.
+
+Theorem C12_total_chain_covers_every_member : forall f fn subj e handled m,
+  chain_total (f, fn, subj, e, handled) = true -> In m (members_of e) -> In m handled.
+Proof. exact chain_total_covers. Qed.
+Print Assumptions C12_total_chain_covers_every_member.
+
+Theorem C12_enum_chains_guard_exact : forallb (fun ch => negb (chain_guard ch) || negb (chain_total ch)) enum_chains = true
+  /\ (4 <= length (filter (fun ch => negb (chain_guard ch)) enum_chains))%nat.
+Proof. exact enum_chains_guard_exact. Qed.
+Print Assumptions C12_enum_chains_guard_exact.
+
+Theorem C12_bound_chain_total : forall c, In c bound_family -> crashes [] bound_chain_handled c = false.
+Proof. exact bound_chain_total. Qed.
+Print Assumptions C12_bound_chain_total.
+
 (* 7. constraints: however And/Or constraints are built (make, invert), apply never
       meets `left, *rest = []` *)
 Theorem C12_constraint_apply_total : forall s, built s -> apply_crashes s = false.
